@@ -5,6 +5,7 @@ From Coq Require Import ZArith List Bool String Arith Lia.
 From TE Require Import Base.Val Models.Proto Models.Synclib Proofs.ProtoP.
 Import ListNotations.
 Open Scope string_scope.
+Open Scope list_scope.
 
 (* ------------------------------------------------------------------ pad / slice *)
 Fixpoint td_ind' (P : td -> Prop) (HS : forall v, P (TSc v))
@@ -409,4 +410,111 @@ Proof.
   split.
   - destruct Hok as [Hd _]. rewrite nth_map_seq by exact Hd. cbn [receives]. rewrite Nat.eqb_refl. reflexivity.
   - intros i Hi Hne. rewrite nth_map_seq by exact Hi. apply Nat.eqb_neq in Hne. cbn [receives]. rewrite Hne. reflexivity.
+Qed.
+
+(* ------------------------------------------------------------------ gathered_states slots *)
+Lemma pad_slots_seq Wg (f : nat -> gs) n :
+  pad_slots Wg (map f (seq 0 n)) = map f (seq 0 n) ++ repeat GEmpty (Wg - n).
+Proof. unfold pad_slots. rewrite map_length, seq_length. reflexivity. Qed.
+
+Lemma untouched_split Wg n : n <= Wg ->
+  untouched Wg = map (fun _ => GEmpty) (seq 0 n) ++ repeat GEmpty (Wg - n).
+Proof.
+  intros H. unfold untouched. replace Wg with (n + (Wg - n)) at 1 by lia. rewrite repeat_app. f_equal.
+  generalize 0. induction n as [|n IH]; intros a; [reflexivity|]. cbn [repeat seq map]. f_equal. apply IH. lia.
+Qed.
+
+(* ------------------------------------------------------------------ sync_obj *)
+Theorem obj_sync_lossless g dst Wg (vs : nat -> val) : let n := List.length g in
+  n > 0 -> dst_ok g dst ->
+  run_all (respond g) (map (fun i => sync_obj dst i Wg (vs i)) (seq 0 n))
+  = Some (map (fun i => Ok (if receives dst i then pad_slots Wg (map (fun j => GO (vs j)) (seq 0 n))
+                            else untouched Wg)) (seq 0 n)).
+Proof.
+  intros n Hn Hok. destruct dst as [d|]; unfold sync_obj.
+  - step (fun i => GatherObj d (Nat.eqb i d) (vs i)) (fun i => if Nat.eqb i d then RObjs (map vs (seq 0 n)) else RNone);
+      [apply seq_ne, Hn|intros; reflexivity|apply (respond_gatherobj g d vs Hn Hok)|].
+    apply run_all_ret_ext. intros i _. cbn [receives cont]. destruct (Nat.eqb i d); [|reflexivity].
+    rewrite map_map. reflexivity.
+  - step (fun i => AllGatherObj (vs i)) (fun _ : nat => RObjs (map vs (seq 0 n)));
+      [apply seq_ne, Hn|intros; reflexivity|apply (respond_allgatherobj g vs); [apply seq_ne, Hn|apply seq_length]|].
+    apply run_all_ret_ext. intros i _. cbn [receives cont]. rewrite map_map. reflexivity.
+Qed.
+
+(* ------------------------------------------------------------------ sync_list *)
+Definition accR (Wg n : nat) (xss : nat -> list tensor) (k : nat) : list gs :=
+  map (fun j => match k with 0 => GEmpty | S _ => GL (firstn k (xss j)) end) (seq 0 n) ++ repeat GEmpty (Wg - n).
+
+Lemma collect_map {X} k (a : X -> gs) (t : X -> tensor) (len : X -> nat) (xs : list X) rest :
+  collect k (map a xs ++ rest) (map t xs) (map len xs)
+  = map (fun x => if Nat.ltb k (len x) then gapp (if Nat.eqb (glen (a x)) 0 then GL [] else a x) (t x)
+                  else (if Nat.eqb (glen (a x)) 0 then GL [] else a x)) xs ++ rest.
+Proof.
+  induction xs as [|x xs IH]; cbn [map app collect]; [destruct rest; reflexivity|]. f_equal. exact IH.
+Qed.
+
+Lemma firstn_S_nth {X} : forall (xs : list X) k d, k < List.length xs -> firstn k xs ++ [nth k xs d] = firstn (S k) xs.
+Proof.
+  induction xs as [|x xs IH]; intros k d Hk; cbn in Hk; [lia|].
+  destruct k as [|k]; [reflexivity|]. cbn [firstn nth app]. f_equal. apply IH. lia.
+Qed.
+
+Lemma collect_elem k (xs : list tensor) d :
+  (if Nat.ltb k (List.length xs)
+   then gapp (if Nat.eqb (glen (match k with 0 => GEmpty | S _ => GL (firstn k xs) end)) 0 then GL []
+              else match k with 0 => GEmpty | S _ => GL (firstn k xs) end) (nth k xs d)
+   else (if Nat.eqb (glen (match k with 0 => GEmpty | S _ => GL (firstn k xs) end)) 0 then GL []
+         else match k with 0 => GEmpty | S _ => GL (firstn k xs) end))
+  = GL (firstn (S k) xs).
+Proof.
+  assert (E : (if Nat.eqb (glen (match k with 0 => GEmpty | S _ => GL (firstn k xs) end)) 0 then GL []
+               else match k with 0 => GEmpty | S _ => GL (firstn k xs) end) = GL (firstn k xs)).
+  { destruct k as [|k]; [reflexivity|]. cbn [glen].
+    destruct (Nat.eqb_spec (List.length (firstn (S k) xs)) 0) as [H0|H0]; [|reflexivity].
+    apply length_zero_iff_nil in H0. rewrite H0. reflexivity. }
+  rewrite E. destruct (Nat.ltb_spec k (List.length xs)) as [Hlt|Hge].
+  - cbn [gapp]. rewrite firstn_S_nth by exact Hlt. reflexivity.
+  - rewrite !firstn_all2 by lia. reflexivity.
+Qed.
+
+Lemma collect_accR Wg n xss (ms : nat -> meta) k :
+  collect k (accR Wg n xss k) (map (fun j => nth k (xss j) (dummy (ms j))) (seq 0 n))
+          (map (fun j => List.length (xss j)) (seq 0 n))
+  = accR Wg n xss (S k).
+Proof.
+  unfold accR. rewrite collect_map. f_equal. apply map_ext. intros j. apply collect_elem.
+Qed.
+
+Lemma tens_ok_dummy d z m : List.length (snd m) = d -> fst m = z -> tens_ok d z (dummy m).
+Proof. intros H1 H2. unfold tens_ok, dummy, ndim. cbn [shp dat dt]. split; [apply wf_zeros|]. split; assumption. Qed.
+
+Lemma list_loop_S dst i m lens xs k f acc :
+  list_loop dst i m lens xs k (S f) acc
+  = bindr (send_tensors dst i (nth k xs (dummy m))) (fun o =>
+      list_loop dst i m lens xs (S k) f (match o with Some ts => collect k acc ts lens | None => acc end)).
+Proof. reflexivity. Qed.
+
+Lemma list_loop_run g dst Wg (xss : nat -> list tensor) (ms : nat -> meta) d z : let n := List.length g in
+  n > 0 -> dst_ok g dst ->
+  (forall i, i < n -> forall t, In t (xss i) -> tens_ok d z t) ->
+  (forall i, i < n -> List.length (snd (ms i)) = d /\ fst (ms i) = z) ->
+  forall fuel k,
+  run_all (respond g)
+    (map (fun i => list_loop dst i (ms i) (map (fun j => List.length (xss j)) (seq 0 n)) (xss i) k fuel
+                     (if receives dst i then accR Wg n xss k else untouched Wg)) (seq 0 n))
+  = Some (map (fun i => Ok (if receives dst i then accR Wg n xss (k + fuel) else untouched Wg)) (seq 0 n)).
+Proof.
+  intros n Hn Hok Ht Hms. induction fuel as [|fuel IH]; intros k.
+  - apply run_all_ret_ext. intros i _. rewrite Nat.add_0_r. reflexivity.
+  - refine (extK g _ _ _ _ (fun i _ => list_loop_S _ _ _ _ _ _ _ _) _).
+    bindr_with (fun i => send_tensors dst i (nth k (xss i) (dummy (ms i))))
+               (fun i => if receives dst i then Some (map (fun j => nth k (xss j) (dummy (ms j))) (seq 0 n)) else None).
+    { apply (send_tensors_lossless g dst (fun i => nth k (xss i) (dummy (ms i))) d z Hn Hok).
+      intros i Hi. destruct (Nat.lt_ge_cases k (List.length (xss i))) as [Hlt|Hge].
+      - apply (Ht i Hi), nth_In, Hlt.
+      - rewrite nth_overflow by lia. apply tens_ok_dummy; apply (Hms i Hi). }
+    refine (extK g (fun i => list_loop dst i (ms i) (map (fun j => List.length (xss j)) (seq 0 n)) (xss i) (S k) fuel
+                     (if receives dst i then accR Wg n xss (S k) else untouched Wg)) _ _ _ _ _).
+    + intros i _. destruct (receives dst i); [|reflexivity]. f_equal. apply collect_accR.
+    + rewrite IH. rewrite Nat.add_succ_r. reflexivity.
 Qed.
